@@ -237,3 +237,59 @@ def ret_classes(f):
             else:
                 out[i] = "fwd:" + c
     return out
+
+
+def escapes(f, start_bbs, goal_bbs, avoid_bbs):
+    """Is there a path over normal edges from any successor of a block in start_bbs to a block in goal_bbs that does
+    not pass through a block in avoid_bbs?  Returns the witness path (list of bbs) or None."""
+    goal = set(goal_bbs)
+    avoid = set(avoid_bbs)
+    for s in start_bbs:
+        prev = {}
+        dq = deque()
+        for n in succs(f, s):
+            if n not in avoid and n not in prev:
+                prev[n] = s
+                dq.append(n)
+        while dq:
+            b = dq.popleft()
+            if b in goal:
+                path = [b]
+                while path[-1] != s:
+                    path.append(prev[path[-1]])
+                return list(reversed(path))
+            for n in succs(f, b):
+                if n not in prev and n not in avoid and n != s:
+                    prev[n] = b
+                    dq.append(n)
+    return None
+
+
+def ok_exit_blocks(f):
+    """blocks after which the function is committed to a non-error result: blocks that assign `_0 = Ok(..)`, a plain
+    value, or forward a callee's result; for functions returning `()` the return blocks themselves"""
+    rc = ret_classes(f)
+    out = [b for b, c in rc.items() if c != "err" and c != "none"]
+    if not out:
+        out = return_blocks(f)
+    return out
+
+
+def field_writes(f, base_local, fields=None):
+    """blocks where a field of `(*_base_local)` / `_base_local` is assigned or mutably borrowed (`&mut self.f` passed on)"""
+    out = []
+    for i, b in enumerate(f["blocks"]):
+        if b.get("cleanup"):
+            continue
+        for s in b["s"]:
+            d = s["d"]
+            if d["l"] == base_local and d.get("p"):
+                fs = [q["f"] for q in d["p"] if isinstance(q, dict) and "f" in q]
+                if fs and (fields is None or fs[0] in fields):
+                    out.append((i, "assign", fs[0], s["l"]))
+            r = s["r"]
+            if r["rv"] == "ref" and r.get("mut") and r["p"]["l"] == base_local and r["p"].get("p"):
+                fs = [q["f"] for q in r["p"]["p"] if isinstance(q, dict) and "f" in q]
+                if fs and (fields is None or fs[0] in fields):
+                    out.append((i, "mut-borrow", fs[0], s["l"]))
+    return out
